@@ -209,6 +209,11 @@ def ROUND(number, digits):
     digits = utils.parse_integer(digits)
     if utils.any_is_error((number, digits)):
         return error.VALUE
+    if digits > 400:
+        # no double has that many decimals (and round() would build 10**digits first)
+        return number
+    if digits < -400:
+        return 0
     return round(number, digits)
 
 
@@ -219,6 +224,12 @@ def ROUNDUP(number, digits):
     if utils.any_is_error((number, digits)):
         return error.VALUE
     sign = 1 if number > 0 else -1
+    if digits > 400:
+        # no double has that many decimals (and 10**digits would take for ever to build)
+        return number
+    if digits < -400:
+        # the next multiple of a unit beyond every number a sheet can hold
+        return error.NUM if number else 0
     if digits < 0:
         # 10**digits is not exact (300000 * 10**-5 is 3.0000000000000004): divide by the exact unit instead
         unit = 10**-digits
@@ -233,6 +244,10 @@ def ROUNDDOWN(number, digits):
     if utils.any_is_error((number, digits)):
         return error.VALUE
     sign = 1 if number > 0 else -1
+    if digits > 400:
+        return number
+    if digits < -400:
+        return 0
     if digits < 0:
         unit = 10**-digits
         return sign * math.floor(abs(number) / float(unit)) * unit
